@@ -171,4 +171,76 @@ theorem doEvent_reapply_table (m : MachineDesc) (act : ActionId → Ev → P →
   rw [List.all_eq_true] at this
   exact this s1 (edge_mem_succs (setState_edge hs))
 
+/-- the states one accepted `Do` can end in: one edge, or two -/
+def reach1 (m : MachineDesc) (cur : St) : List St := succs m cur ++ (succs m cur).flatMap (succs m)
+
+theorem processAuto_ok_reach (m : MachineDesc) (act : ActionId → Ev → P → A → ActOut P R) (s1 : St) (p : P) (a : A)
+    (hok : (processAuto m act s1 p 2 a).res = .ok) :
+    (processAuto m act s1 p 2 a).state = s1 ∨ (processAuto m act s1 p 2 a).state ∈ succs m s1 := by
+  unfold processAuto at hok ⊢
+  cases hau : autoLookup m s1 2 with
+  | none => left; rfl
+  | some au =>
+    simp only [hau] at hok ⊢
+    have key : ∀ o : ActOut P R,
+        (match o.res with
+          | .panic => (⟨true, none, o.data, .panic, s1, o.payload⟩ : AutoOut P R)
+          | .err => ⟨true, none, o.data, .err, s1, o.payload⟩
+          | .ok =>
+            match setState m s1 (o.outEvent.getD au.event) with
+            | some s' => ⟨true, o.outEvent, o.data, .ok, s', o.payload⟩
+            | none => ⟨true, o.outEvent, o.data, .err, s1, o.payload⟩).res = .ok →
+        (match o.res with
+          | .panic => (⟨true, none, o.data, .panic, s1, o.payload⟩ : AutoOut P R)
+          | .err => ⟨true, none, o.data, .err, s1, o.payload⟩
+          | .ok =>
+            match setState m s1 (o.outEvent.getD au.event) with
+            | some s' => ⟨true, o.outEvent, o.data, .ok, s', o.payload⟩
+            | none => ⟨true, o.outEvent, o.data, .err, s1, o.payload⟩).state ∈ succs m s1 := by
+      intro o h
+      cases hr : o.res with
+      | panic => simp [hr] at h
+      | err => simp [hr] at h
+      | ok =>
+        simp only [hr] at h ⊢
+        cases hs2 : setState m s1 (o.outEvent.getD au.event) with
+        | none => simp [hs2] at h
+        | some s2 => simp only [hs2]; exact edge_mem_succs (setState_edge hs2)
+    right
+    exact key _ hok
+
+theorem doEvent_ok_reach (m : MachineDesc) (act : ActionId → Ev → P → A → ActOut P R) (cur : St) (p : P) (e : Ev) (a : A)
+    (hb : ∀ s, autoLookup m s 1 = none) (hok : (doEvent m act cur p e a).res = .ok) :
+    (lookup m cur e).isSome = true ∧ (doEvent m act cur p e a).state ∈ reach1 m cur := by
+  unfold doEvent at hok ⊢
+  cases hl : lookup m cur e with
+  | none => simp [hl] at hok
+  | some tr =>
+    refine ⟨rfl, ?_⟩
+    simp only [hl] at hok ⊢
+    by_cases hi : tr.isInternal = true
+    · simp [hi] at hok
+    · simp only [hi, Bool.false_eq_true, ↓reduceIte] at hok ⊢
+      unfold doTr at hok ⊢
+      simp only [processAuto_none (hb cur), Bool.false_and, Bool.false_eq_true, ↓reduceIte] at hok ⊢
+      generalize mainCallback m act tr ⟨false, none, none, .ok, cur, p⟩ a = o at hok ⊢
+      by_cases hne : (o.res != .ok) = true
+      · simp only [hne, ↓reduceIte] at hok
+        simp only [bne_iff_ne, ne_eq] at hne
+        exact absurd hok hne
+      · simp only [hne, Bool.false_eq_true, ↓reduceIte] at hok ⊢
+        unfold doTrAfter at hok ⊢
+        dsimp only at hok ⊢
+        cases hs1 : setState m cur (o.outEvent.getD tr.event) with
+        | none => simp [hs1] at hok
+        | some s1 =>
+          simp only [hs1] at hok ⊢
+          have he1 : s1 ∈ succs m cur := edge_mem_succs (setState_edge hs1)
+          unfold reach1
+          rcases processAuto_ok_reach m act s1 o.payload a hok with h | h
+          · rw [h]; exact List.mem_append_left _ he1
+          · apply List.mem_append_right
+            rw [List.mem_flatMap]
+            exact ⟨s1, he1, h⟩
+
 end Dc4bcVerif.Model
